@@ -34,7 +34,9 @@ def rand_cfg(rng, kind, small=True, rv=None, tf=None, fill=False, inp=None):
         return rng.choice([7, 9, 11]) if rng.random() < 0.12 else rng.randint(lo, hi)
     kw = {"rv": rv if rv is not None else 4, "timeframe": tf, "fill": fill}
     if kind in ("SMA", "EMA", "RMA", "WMA"):
-        kw.update(p=P(2, 6), inp=inp or rng.choice(["close", "close", "open", "high", "low", "volume"]))
+        # (a price field, the volume, or one of the candle's own shape properties)
+        kw.update(p=P(2, 6), inp=inp or rng.choice(["close", "close", "open", "high", "low", "volume", "close",
+                                                     "high_low", "realbody"]))
         if kind == "EMA" and rng.random() < 0.2:
             kw["smoothing"] = rng.choice([2.0, 3.0, 1.5])
     elif kind == "VWMA":
@@ -46,7 +48,7 @@ def rand_cfg(rng, kind, small=True, rv=None, tf=None, fill=False, inp=None):
     elif kind in ("ATR", "DONCHIAN", "HL", "AROON", "VWAP"):
         kw.update(p=P())
     elif kind in ("STDEV", "BBANDS", "ROC"):
-        kw.update(p=P(2, 5), inp=inp or rng.choice(["close", "close", "high"]))
+        kw.update(p=P(2, 5), inp=inp or rng.choice(["close", "close", "high", "close", "high_low", "shadow_upper"]))
     elif kind in ("RSI",):
         kw.update(p=rng.choice([2, 2, 3, 4, 4, 5]), inp=inp or "close")
     elif kind in ("KC", "Supertrend", "STDEVTHRES"):
@@ -70,6 +72,8 @@ def rand_cfg(rng, kind, small=True, rv=None, tf=None, fill=False, inp=None):
             kw["p2"] = rng.randint(2, 3)
     elif kind == "Counter":
         kw.update(inp="volume", count_value=rng.choice([3, 8, 0]))
+        if rng.random() < 0.4:       # the run length of rising / falling candles
+            kw.update(inp=rng.choice(["positive", "negative"]), count_value=rng.choice([True, True, False]))
     return IndCfg(kind, **kw)
 
 
@@ -434,10 +438,11 @@ def _scenarios(pid, tier, rng):
                 # calculate_index (positive, negative, Hexital's default), on members with their own timeframe
                 + fam_maintenance(rng, pid, k(50, 300)))
     if pid == "C10":
-        return fam_kinds(rng, pid, ALL_KINDS, k(420, 1800), twins=(), tf_share=0.3)
+        return (fam_kinds(rng, pid, ALL_KINDS, k(420, 1800), twins=(), tf_share=0.3)
+                + fam_readd(rng, pid, k(24, 150), twins=()))
     if pid == "C01":
         return (fam_kinds(rng, pid, ALL_KINDS, k(200, 1200), tf_share=0.6)
-                + fam_chain(rng, pid, k(40, 200)) + fam_amorph(rng, pid, k(40, 240))
+                + fam_chain(rng, pid, k(40, 200)) + fam_amorph(rng, pid, k(64, 320))
                 + fam_hexital(rng, pid, k(50, 300), twins=("batch",))
                 + fam_aware(rng, pid, k(24, 150), twins=("batch",)))
     if pid == "C02":
@@ -448,7 +453,10 @@ def _scenarios(pid, tier, rng):
                 + fam_hexital(rng, pid, k(40, 240), twins=("longer",)))
     if pid == "C03":
         return (fam_manager(rng, pid, k(350, 1700)) + fam_disorder(rng, pid, k(40, 200))
-                + fam_aware(rng, pid, k(20, 150)))
+                + fam_aware(rng, pid, k(20, 150))
+                # several collapsed series inside one Hexital (members on different timeframes, candles at
+                # construction or appended): each is the resampling of the same stream
+                + fam_hexital(rng, pid, k(30, 200), twins=()))
     if pid == "C12":
         scs = fam_manager(rng, pid, k(420, 2000), fills=(True,), twins=("batch",))
         for sc in scs:
@@ -645,14 +653,21 @@ def fam_readd(rng, pid, count, twins=("final_batch",)):
         a = rand_cfg(rng, rng.choice(SIMPLE))
         b = rand_cfg(rng, rng.choice(SIMPLE + NESTED), tf=tf)
         c = rand_cfg(rng, rng.choice(SIMPLE + NESTED), tf=tf) if rng.random() < 0.5 else b.clone()
-        n = rng.randint(18, 26)
+        if t % 3 == 2:
+            # the same generated name, other settings the name does not carry (rounding, input): what the
+            # indicator that left wrote must be gone, the newcomer's readings are its own
+            c = b.clone(rv=rng.choice([0, 1, 2]))
+            if c.kind in ("SMA", "EMA", "RMA", "WMA"):
+                c.inp = rng.choice([x for x in ("close", "open", "high", "low", "volume") if x != b.inp])
+        n = rng.randint(18, 26) if t % 3 != 2 else rng.randint(28, 34)
         names = [x.build(standalone=False).name for x in (a, b)]
         cname = c.build(standalone=False).name
         if names[0] == names[1] or cname == names[0]:
             continue
-        if cname == names[1]:
-            c = b.clone()          # same name must mean the same indicator
-        cuts = sorted(rng.sample(range(2, n - 2), 3))
+        if cname == names[1] and t % 3 != 2:
+            c = b.clone()          # (unless the variant above is meant) same name, same indicator
+        # (in the same-name variant the first indicator leaves after its warm-up, one candle per bucket)
+        cuts = sorted(rng.sample(range(2, n - 2) if t % 3 != 2 else range(n // 2 + 2, n - 2), 3))
         prog = [("new", rng.choice([0, 2])), ("append", rng.choice([1, 3]), cuts[0]) ]
         prog[1] = ("append", prog[0][1] + 1, cuts[0])
         prog += [("remove", names[1]), ("append", cuts[0] + 1, cuts[1])]
@@ -662,7 +677,9 @@ def fam_readd(rng, pid, count, twins=("final_batch",)):
         else:
             pos = cuts[1]
         prog += [("add", 2, rng.choice(["obj", "dict"])), ("append", pos + 1, n), ("calculate", "")]
-        regular = tf_regular(rng, tf)
+        from streams import tf_seconds as _tfs
+
+        regular = tf_regular(rng, tf) if t % 3 != 2 else _tfs(tf)
         out.append({"id": f"{pid}/readd/{tf}/{t}", "fam": "maint", "obj": "hex", "inds": [a, b], "late": [c],
                     "names_fixed": True,
                     "hex": {}, "stream": make_stream(rng, n, "mixed", tf=tf, regular=regular), "prog": prog,
@@ -1061,6 +1078,15 @@ def fam_scale(rng, pid, count, hists=(60, 300)):
         elif t % 6 == 5:
             cfgs = _uniq([rand_cfg(rng, k) for k in rng.sample(ALL_KINDS, 5)])
             sc = {"id": f"{pid}/scale/hex/{t}", "obj": "hex", "inds": cfgs, "hex": {}, "member_forms": ["obj"] * len(cfgs)}
+        elif t % 6 == 3:
+            # a pattern / movement function wrapped as an indicator (also the ones named like a candle's own
+            # properties: positive, negative), standalone or as a dict member
+            cfg = amorph_cfg(rng, prefer=(("positive", "negative") if t % 12 == 3 else None))
+            if rng.random() < 0.5:
+                sc = {"id": f"{pid}/scale/amorph/{cfg.fn}/{t}", "obj": "ind", "inds": [cfg]}
+            else:
+                sc = {"id": f"{pid}/scale/amorphhex/{cfg.fn}/{t}", "obj": "hex", "inds": [cfg, rand_cfg(rng, "EMA")],
+                      "hex": {}, "member_forms": ["dict", "obj"]}
         else:
             cfg = rand_cfg(rng, ALL_KINDS[t % len(ALL_KINDS)])
             sc = {"id": f"{pid}/scale/{cfg.kind}/{t}", "obj": "ind", "inds": [cfg]}
@@ -1447,7 +1473,7 @@ def amorph_cfg(rng, src_name=None, prefer=None):
     fn = rng.choice(list(prefer) if prefer
                     else list(MOVE1) + ["cross", "crossover", "crossunder", "positive", "negative"] + list(PATS))
     if fn in PATS:
-        return IndCfg("Amorph", fn=fn, p=rng.choice([0, 0, 2, 3]))
+        return IndCfg("Amorph", fn=fn, p=rng.choice([0, 0, 2, 3, 12, 15]))
     if fn in ("positive", "negative"):
         return IndCfg("Amorph", fn=fn)
     a = src_name or rng.choice(["close", "high", "low"])
@@ -1465,9 +1491,10 @@ def fam_amorph(rng, pid, count, twins=("batch",)):
     for t in range(count):
         # (every third scenario: the two-series functions, whose answer at candle i compares candle i with
         #  its predecessor -- the ones a one-candle shift in either direction changes)
-        prefer = ("cross", "crossover", "crossunder") if t % 3 == 2 else None
+        prefer = ("cross", "crossover", "crossunder") if t % 3 == 2 else (PATS if t % 4 == 0 else None)
         if t % 2 == 0:
-            cfg = amorph_cfg(rng, prefer=prefer)
+            tail = t % 8 == 0        # every eighth: a wrapped pattern whose only hit is the last candle
+            cfg = amorph_cfg(rng, prefer=((PATS[(t // 8) % 4],) if tail else prefer))
             n = rng.randint(12, 18)
             if t % 6 == 4:
                 # the wrapper has already produced readings on a list of its own, then joins a Hexital
@@ -1475,8 +1502,34 @@ def fam_amorph(rng, pid, count, twins=("batch",)):
                                         rng.choice(["walk", "mixed"]), twins, forms=["used"],
                                         extra=rng.randint(1, 4) if "longer" in twins else 0))
                 continue
-            out.append(ind_scenario(rng, f"{pid}/amorph/{cfg.fn}/{t}", "amorph", cfg, n, rng.choice(["walk", "mixed"]),
-                                    twins, extra=rng.randint(1, 4) if "longer" in twins else 0))
+            sc = ind_scenario(rng, f"{pid}/amorph/{cfg.fn}/{t}", "amorph", cfg, n, rng.choice(["walk", "mixed"]),
+                              twins, extra=rng.randint(1, 4) if "longer" in twins else 0)
+            if cfg.fn in PATS and tail:
+                # a lookback longer than the history in front of the early candles, on a stream whose LAST
+                # candle is a hit of the same pattern (for the doji family also with a body of exactly zero):
+                # a hit at the end of the list must not show up on candles that cannot see it
+                cfg.p = rng.choice([12, 15, 20])
+                prices, at = pattern_case(rng, cfg.fn, witness=True)
+                prices = prices[:at + 1]
+                if cfg.fn in ("doji", "dojistar") and rng.random() < 0.75:
+                    o_, h_, l_, c_, v_ = prices[-1]
+                    prices[-1] = (o_, h_, l_, o_, v_)
+                head = _neutral(rng.randint(2, 6))
+                prices = head + prices
+                extra_ = len(sc["stream"]) - n
+                sc = ind_scenario(rng, sc["id"].replace("/amorph/", "/amorph/tail/"), "amorph", cfg, len(prices), "walk",
+                                  tuple(x for x in twins if x != "longer"), extra=0, pre_choices=(0, 1, 2, len(prices)))
+                sc["stream"] = [(i * 60,) + tuple(p_) for i, p_ in enumerate(prices)]
+            elif cfg.fn in PATS and rng.random() < 0.7:
+                # a series that really carries pattern candles (also as its last candle), long enough for
+                # lookbacks that reach back past the warm-up of the pattern's averages
+                prices = multi_pattern_series(rng)
+                extra_ = len(sc["stream"]) - n
+                while len(prices) < n + extra_:
+                    prices = prices + multi_pattern_series(rng)[11:]
+                sc = ind_scenario(rng, sc["id"], "amorph", cfg, len(prices) - extra_, "walk", twins, extra=extra_)
+                sc["stream"] = [(i * 60,) + tuple(p_) for i, p_ in enumerate(prices)]
+            out.append(sc)
         else:
             src = rand_cfg(rng, rng.choice(["EMA", "SMA", "RSI", "ATR"]))
             live = src.build(standalone=False).name
